@@ -12,3 +12,13 @@ import run
 fdir, st = run.extract("dev")
 print("facts:", fdir, st)
 PY
+# warm-up for the thorough tier (not needed by quick; failures here are not fatal: the thorough commands
+# build what they need themselves, only slower the first time)
+python3 - <<'PY' || true
+import sys
+sys.path.insert(0, "engine/rules")
+import run
+fdir, st = run.extract("release")
+print("facts (release):", fdir, st)
+PY
+(cd engine/witness && cp /repo/rust/Cargo.lock . && CARGO_TARGET_DIR=/verif/.cache/target-witness cargo +nightly test --doc --offline --no-run 2>&1 | tail -1) || true
